@@ -74,8 +74,15 @@ func recC07(c *ctx) {
 		var dst, s, p [32]byte
 		copy(s[:], sc)
 		copy(p[:], pt)
-		x25519.ScalarMult(&dst, &s, &p)
-		c.w.Emit(vt.Ev{"op": "scalarmult", "cfg": c.cfg, "scalar": vt.B(sc), "point": vt.B(pt), "out": vt.B(dst[:])})
+		out := &dst
+		switch r.Intn(6) { // the destination may be the scalar or the point buffer
+		case 0:
+			out = &s
+		case 1:
+			out = &p
+		}
+		x25519.ScalarMult(out, &s, &p)
+		c.w.Emit(vt.Ev{"op": "scalarmult", "cfg": c.cfg, "scalar": vt.B(sc), "point": vt.B(pt), "out": vt.B(out[:])})
 	}
 	// complete special family through both entry points
 	for _, u := range specialU() {
